@@ -39,4 +39,9 @@ def check(repo, rep, tier):
     if ti:
         rp.r_sentence_loop(repo, rep, 'R10.3', ti)
         rp.r_callbacks(repo, rep, 'R10.2')
+    # "the list returned for a sentence": a large batch goes through a pool of workers in chunks; the n-best list that comes
+    # back at position i must be the one computed from sentence i (shared with C11 R11.2 / R11.3)
+    from .c11 import r_chunks, r_gather
+    r_chunks(repo, rep, 'R10.3')
+    r_gather(repo, rep, 'R10.3')
     rep.floor('chart constructions', len(m.chart_args), 2)
